@@ -1,5 +1,7 @@
 """C07 — calling an included program equals inlining it with renamed modes."""
 import os
+
+import numpy as np
 import random
 import shutil
 
@@ -309,7 +311,82 @@ def check_tree(files, main, inlined, proc_dirs, model_lines=None, extras=0):
         shutil.rmtree(root, ignore_errors=True)
 
 
+def exact_args(files, main, inlined):
+    """load(main) against loads(inlined), argument by argument with repr (2 is not 2.0, -0.0 is not 0.0, 0 is
+    not 0j), transforms by their listed registers and their value at a point"""
+    root, real = materialise(files)
+    try:
+        r = oracles.impl_load_file(root, main, None, True)
+        ib = core.impl_loads(inlined)
+        if r[0] != "ok":
+            return "load raises %r" % (r[1],)
+        if ib[0] != "ok":
+            return "inlined script is refused: %r" % (ib[1],)
+        a, b = r[1].operations, ib[1].operations
+        if [(o["op"], list(map(int, o["modes"]))) for o in a] != [(o["op"], list(map(int, o["modes"]))) for o in b]:
+            return "operations %s, inlined %s" % ([(o["op"], o["modes"]) for o in a], [(o["op"], o["modes"]) for o in b])
+
+        def show(v):
+            if hasattr(v, "regrefs"):
+                vals = {q: 0.75 + 0.5 * q for q in v.regrefs}
+                return ("transform", sorted(v.regrefs), "%.12g" % complex(v.func(*[vals[q] for q in v.regrefs])).real)
+            if isinstance(v, (bool, np.bool_)):
+                return ("b", bool(v))
+            if isinstance(v, (int, np.integer)):
+                return ("i", int(v))
+            if isinstance(v, (float, np.floating)):
+                return ("f", repr(float(v)))
+            if isinstance(v, (complex, np.complexfloating)):
+                return ("c", repr(complex(v)))
+            if isinstance(v, list):
+                return [show(x) for x in v]
+            return repr(v)
+        for x, y in zip(a, b):
+            ax = [show(v) for v in x.get("args", [])] + [(k, show(v)) for k, v in sorted(x.get("kwargs", {}).items())]
+            ay = [show(v) for v in y.get("args", [])] + [(k, show(v)) for k, v in sorted(y.get("kwargs", {}).items())]
+            if ax != ay:
+                return "%s | %s: arguments %s, inlined %s" % (x["op"], x["modes"], ax, ay)
+        return None
+    finally:
+        shutil.rmtree(root, ignore_errors=True)
+
+
+def special_tree(rng, k):
+    H = "name %s\nversion 1.0\n\n"
+    kind = k % 4
+    if kind == 0:
+        # calls of included programs inside a loop body
+        lo = rng.randrange(0, 3)
+        files = {"prep.xbb": H % "Prep" + "Sgate(0.5) | 0\nBSgate | [0, 1]\n", "rot.xbb": H % "Rot" + "Rgate({alpha}, 2*{alpha}) | 0\n",
+                 "main.xbb": 'name main\nversion 1.0\ninclude "prep.xbb"\ninclude "rot.xbb"\n\nfor int m in %d:%d\n    Prep | [m, m+1]\n    Rot(alpha=m) | 7\nVac | 0\n' % (lo, lo + 2)}
+        inl = "name main\nversion 1.0\n\n" + "".join(
+            "Sgate(0.5) | %d\nBSgate | [%d, %d]\nRgate(%d, 2*%d) | 7\n" % (m, m, m + 1, m, m) for m in (lo, lo + 1)) + "Vac | 0\n"
+    elif kind == 1:
+        # one template applied with values that are equal as numbers and different as values
+        vals = rng.sample(["2", "2.0", "2+0j", "0", "0.0", "-0.0", "0j", "1", "1.0", "True"], 4)
+        files = {"damp.xbb": H % "Damp" + "Dgate({g}, k=[{g}, 1]) | 0\n",
+                 "main.xbb": 'name main\nversion 1.0\ninclude "damp.xbb"\n\n' + "".join("Damp(g=%s) | %d\n" % (v, i + 1) for i, v in enumerate(vals))}
+        inl = "name main\nversion 1.0\n\n" + "".join("Dgate(%s, k=[%s, 1]) | %d\n" % (v, v, i + 1) for i, v in enumerate(vals))
+    elif kind == 2:
+        # a file that uses, as a plain operation, a name that is ALSO the name of a program its includer included
+        nm = rng.choice(["Fourier", "Prep", "U2"])
+        files = {"f.xbb": H % nm + "Rgate(0.5) | 0\n", "stage.xbb": H % "Stage" + "%s | 0\nSgate(1) | 1\n" % nm,
+                 "main.xbb": 'name main\nversion 1.0\ninclude "f.xbb"\ninclude "stage.xbb"\n\n%s | 2\nStage | [6, 5]\n' % nm}
+        inl = "name main\nversion 1.0\n\nRgate(0.5) | 2\n%s | 6\nSgate(1) | 5\n" % nm
+    else:
+        # an included program whose arguments are register transforms, applied to other modes: the transforms
+        # are the ones written (expression, listed registers and function stay together)
+        a, b, c = rng.sample(range(3, 9), 3)
+        body = "MeasureX | 0\nMeasureX | 1\nDgate(2*q0 - q1/4, phi=3/(q1 + 2)) | 2\n"
+        files = {"ff.xbb": H % "Feedfwd" + body, "main.xbb": 'name main\nversion 1.0\ninclude "ff.xbb"\n\nFeedfwd | [%d, %d, %d]\n' % (a, b, c)}
+        inl = "name main\nversion 1.0\n\nMeasureX | %d\nMeasureX | %d\nDgate(2*q0 - q1/4, phi=3/(q1 + 2)) | %d\n" % (a, b, c)
+    msg = exact_args(files, "main.xbb", inl)
+    return msg, {"kind": "exact_tree", "files": files, "main": "main.xbb", "inlined": inl}
+
+
 def replay(ctx, data):
+    if data.get("kind") == "exact_tree":
+        return exact_args(data["files"], data["main"], data["inlined"])
     if data.get("kind") == "tree":
         msg = check_tree(data["files"], data["main"], data["inlined"], [tuple(x) for x in data["proc_dirs"]],
                          extras=data.get("extras", 0))
@@ -347,6 +424,13 @@ def run(ctx):
         elif msg:
             ctx.violation("include: " + msg, {"kind": "tree", "files": files, "main": main, "inlined": inlined,
                                               "proc_dirs": proc_dirs, "extras": extras})
+    # fixed shapes that random trees do not produce
+    for k in range(ctx.n(8, 60)):
+        msg, rep = special_tree(ctx.rng, k)
+        ctx.count("special-shape:%d" % (k % 4))
+        ctx.case(("special", k, repr(rep.get("files"))), nontrivial=True)
+        if msg:
+            ctx.violation("include: " + msg, rep)
     # files are text in UTF-8: a string literal with non-ASCII characters in the main file and in an included one
     for _ in range(ctx.n(3, 30)):
         w1, w2 = ctx.rng.sample(["é", "ü ö", "日本", "a·b", "naïve", "π"], 2)
